@@ -463,7 +463,9 @@ pub fn effective(c: &LimCase) -> Eff {
         Role::V5Client => Eff {
             qos: 2,
             alias: c.hs_alias.unwrap_or(0),
-            recv: c.cfg_recv as u32,
+            // (for this role `hs_recv: Some(_)` stands for "the application sets no Receive Maximum
+            // in CONNECT": the protocol default applies, not the service configuration)
+            recv: if c.hs_recv.is_some() { 65535 } else { c.cfg_recv as u32 },
             size_in: c.hs_size.unwrap_or(0),
             window: (c.cfg_send as u32).min(c.peer_recv.map_or(65535, |v| v as u32)),
             size_out: c.peer_size.unwrap_or(0),
@@ -495,6 +497,7 @@ fn lim_cfg(c: &LimCase) -> ConnCfg {
         }
         Role::V5Client => {
             cfg.client_topic_alias_max = c.hs_alias;
+            cfg.client_receive_max_unset = c.hs_recv.is_some();
             cfg.hs.max_packet_size = c.hs_size;
             let mut props = vec![];
             if let Some(r) = c.peer_recv {
@@ -637,8 +640,10 @@ pub async fn run_limit(case: &LimCase) -> LimOut {
             }
         }
         Probe::Recv(d) => {
-            let n = eff.recv as i32 + d as i32;
-            if eff.recv == 0 || n <= 0 || n > 40 || (role.is_server() && eff.qos == 0) {
+            // no (practical) limit negotiated: a burst well above every configured value must pass
+            let unlimited = eff.recv >= 1000;
+            let n = if unlimited { 25 } else { eff.recv as i32 + d as i32 };
+            if eff.recv == 0 || n <= 0 || n > 40 || (unlimited && d > 0) || (role.is_server() && eff.qos == 0) {
                 o.applicable = false;
             } else {
                 *app.pub_default.borrow_mut() = PubPlan { read: ReadMode::Eager, gated: true, outcome: Outcome::Ok };
